@@ -177,6 +177,20 @@ def _is_method_call_on_first(node: ast.Call):
     return True
 
 
+def _yields_dicts(seq: ast.AST) -> bool:
+    "Is this a sequence whose items are built as dictionary literals?"
+    if is_call_of(seq, "Select") or is_call_of(seq, "SelectMany"):
+        f = seq.args[1]  # type: ignore
+        if not isinstance(f, ast.Lambda):
+            return False
+        if is_call_of(seq, "Select"):
+            return isinstance(f.body, ast.Dict)
+        return _yields_dicts(f.body)
+    if is_call_of(seq, "Where"):
+        return _yields_dicts(seq.args[0])  # type: ignore
+    return False
+
+
 class simplify_chained_calls(FuncADLNodeTransformer):
     """
     In order to cleanly evaluate things like tuples (which should not show up at the back end),
@@ -669,5 +683,9 @@ class simplify_chained_calls(FuncADLNodeTransformer):
         visited_value = self.visit(node.value)
         if isinstance(visited_value, ast.Dict):
             return self.visit_Subscript_Dict_with_value(visited_value, node.attr)
+        if is_call_of(visited_value, "First") and _yields_dicts(visited_value.args[0]):
+            # It became the First of a sequence of dictionaries only now (a parameter replaced
+            # by the previous stage's result): look the key up inside, as for a subscript.
+            return self.visit_Attribute_Of_First(visited_value.args[0], node.attr)
 
         return ast.Attribute(value=visited_value, attr=node.attr, ctx=ast.Load())
